@@ -119,6 +119,14 @@ func (t *toks) wordsArg() (list []string, kind string) {
 		return spg.AgileWords, "list"
 	case "agilesyllables":
 		return spg.AgileSyllables, "list"
+	case "synth":
+		// a synthetic list of n distinct words (sizes beyond 2^16 without megabyte-long case lines)
+		n := t.int()
+		l := make([]string, n)
+		for i := range l {
+			l[i] = fmt.Sprintf("w%05d", i)
+		}
+		return l, "list"
 	}
 	t.rest = append([]string{k}, t.rest...)
 	return t.strs(), "list"
